@@ -106,6 +106,12 @@ def run(check, prog):
     c07.coordinates(check, prog)
     f8_wiring(check, prog)
     f5_state(check, prog)
+    # "finite", "depends only on the arguments": the compiled field routines do
+    # not read back work arrays a failed helper left untouched, nor elements no
+    # statement wrote (rules on the Fortran sources, shared with C02)
+    from . import c02 as _c02f
+    _c02f.status_examined(check, prog)
+    _c02f.work_arrays_defined(check, prog)
 
 
 # ----------------------------------------------------------------------
